@@ -29,7 +29,15 @@
       (`metadata_stream_reads_back`); `getInode` finds the inode whatever type the caller announces;
       the fragment and id tables read back; if the image shows a tree (`ImgShows`) the walk of
       ReadDir / ReadFile returns exactly that tree with owners and file bytes
-      (`image_walk_returns_tree`).
+      (`image_walk_returns_tree`); the readers' index-pointer counts equal the writers' block
+      counts for every number of entries (`lookup_table_block_counts`);
+    * the writing side down to the bytes (Model/Sqfs/ImageWr.lean: Finalize from the file list
+      walkTree returns to every byte written): the writers' chunking is the 8 KiB chunking of the
+      stream, every reference Finalize hands out resolves on the device, file contents read back,
+      the byte-level model and the region model agree on every table start, and
+      `writer_reader_roundtrip`: on any device showing the written bytes the reader returns the
+      superblock and exactly the depth-first walk of the file list with inodes, owners and contents —
+      for every codec, block size and option set, within the stated limits (`Limits`).
   The compressors themselves are outside Lean (parameter `Codec`); the end-to-end clause is
   evaluated on the real code by the engine (see the registration note).
 -/
@@ -43,6 +51,7 @@ import DiskfsModel.Proofs.SqfsWalk
 import DiskfsModel.Proofs.SqfsImageRd
 import DiskfsModel.Proofs.SqfsImageWr
 import DiskfsModel.Proofs.SqfsRoundTrip
+import DiskfsModel.Proofs.SqfsImageRegions
 import DiskfsModel.Generated.Sqfs
 namespace Diskfs.Sqfs.C07
 
@@ -564,5 +573,20 @@ example : readImageS rle rtDev 2 = some (bSB rle exOpt rtFl 2, expectWalk rtFl (
     (fits_of_check rle exOpt rtFl 2 rtLimits 2 0 (by decide) (by decide))
 example : (expectWalk rtFl (bInodes rle exOpt rtFl 2) 2 [] 0).map (fun e => (e.path, e.uid, e.data)) =
     [([[97]], 1000, [5, 5, 5, 5, 7, 8]), ([[100]], 0, []), ([[100], [98]], 1000, [1, 2, 3]), ([[108]], 0, [])] := by decide
+
+/-- **the two writer models agree**: the region mirror of Finalize (`finalize`, the subject of
+    sizes_describe_bytes and of C03's sqfs_finalize_in_range), run on the sizes of the pieces the
+    byte-level writer model produces, computes exactly the table starts and bytes_used that the
+    byte-level model puts into the superblock — for every file list, codec and option set — and
+    bytes_used is the length of the image -/
+theorem writer_image_is_region_image (c : Codec) (o : WOpt) (fl : List FEnt) (fuel : Nat) :
+    (finalize (bPieces c o fl fuel)).inodeStart = (bSB c o fl fuel).inodeStart ∧
+    (finalize (bPieces c o fl fuel)).dirStart = (bSB c o fl fuel).dirStart ∧
+    (finalize (bPieces c o fl fuel)).fragStart = (bSB c o fl fuel).fragStart ∧
+    (finalize (bPieces c o fl fuel)).exportStart = (bSB c o fl fuel).exportStart ∧
+    (finalize (bPieces c o fl fuel)).idStart = (bSB c o fl fuel).idStart ∧
+    (finalize (bPieces c o fl fuel)).bytesUsed = (bSB c o fl fuel).bytesUsed ∧
+    (bSB c o fl fuel).bytesUsed = (bImage c o fl fuel).length :=
+  image_regions c o fl fuel
 
 end Diskfs.Sqfs.C07
